@@ -3,6 +3,7 @@
 -/
 import ChessVerif.Model.Text
 import ChessVerif.Lemmas.SanShapes
+import ChessVerif.Lemmas.SanRound
 namespace Chess.Props
 
 /-- C17 (matcher): on every text shape the printer can produce for a piece move — any of N B R Q K, with or without
@@ -53,8 +54,48 @@ theorem C17_castling (p : Position) (sfx : String) (hs : sfx ∈ ["", "+", "#"])
   have e1 : ∀ s, s ∈ ["", "+", "#"] → stripSuffix ("O-O" ++ s) = "O-O" ∧ stripSuffix ("O-O-O" ++ s) = "O-O-O" := by decide
   exact ⟨fun h => parseSan_castleK p _ (e1 sfx hs).1 h, fun h => parseSan_castleQ p _ (e1 sfx hs).2 h⟩
 
-/-- the full statement (kept visible; decided by the correspondence on every legal move of every sampled position,
-    incl. the disambiguation lab with 3-4 like pieces): -/
-def C17_Statement : Prop := ∀ (p : Position) (m : Nat), m ∈ genMoves p → parseSan p (san p m) = some m
+/-- C17 (ROUND TRIP, every move): in every position whose generated list has the shape `genShapeB` (no duplicates,
+    castling moves are the two castling codes, every other move moves an existing piece and promotes — to N, B, R or Q —
+    exactly when a pawn reaches an end rank; decidable, evaluated at every position of every run, and a consequence of C01),
+    the text `san` prints for a generated move — piece letter, the file/rank disambiguation the printer chose,
+    capture mark, target, promotion, and the check/mate suffix — is parsed by `parse_san` back to exactly that move.
+    The disambiguation argument is the substance: whatever other generated moves share the piece kind and target,
+    the printed file, or file and rank, leaves exactly one candidate. -/
+theorem C17_roundtrip (p : Position) (hs : genShapeB p = true) (m : Nat) (hm : m ∈ genMoves p) :
+    parseSan p (san p m) = some m := by
+  have hsfx : ∃ sfx : String, sfx ∈ ["", "+", "#"] ∧ san p m = sanWithoutCheck p m ++ sfx := by
+    unfold san
+    simp only []
+    split
+    · exact ⟨"#", by simp, rfl⟩
+    · split
+      · exact ⟨"+", by simp, rfl⟩
+      · exact ⟨"", by simp, by simp⟩
+  obtain ⟨sfx, hmem, hsan⟩ := hsfx
+  rw [hsan]
+  by_cases hc : moveCastling m = 0
+  · apply parseSan_plain p hs m hm hc _ sfx.toList
+    · simp only [List.mem_cons, List.mem_nil_iff, or_false] at hmem
+      rcases hmem with rfl | rfl | rfl <;> decide
+    · rw [String.toList_append]
+  · have hcontains : ∀ x, x ∈ genMoves p → (genMoves p).contains x = true := fun x hx => by simpa using hx
+    rcases genShape_castle p hs m hm hc with rfl | rfl
+    · have e : sanWithoutCheck p kingCastlingMove = "O-O" := by
+        unfold sanWithoutCheck
+        rw [if_pos (by decide)]
+      rw [e]
+      exact (C17_castling p sfx hmem).1 (hcontains _ hm)
+    · have e : sanWithoutCheck p queenCastlingMove = "O-O-O" := by
+        unfold sanWithoutCheck
+        rw [if_neg (by decide), if_pos (by decide)]
+      rw [e]
+      exact (C17_castling p sfx hmem).2 (hcontains _ hm)
+
+/-- the hypothesis is satisfiable and the theorem applies to a real position: the initial position (20 moves) -/
+def c17StartBoard : List Nat :=
+  [4, 2, 3, 5, 6, 3, 2, 4, 1, 1, 1, 1, 1, 1, 1, 1] ++ List.replicate 32 0 ++ [7, 7, 7, 7, 7, 7, 7, 7, 10, 8, 9, 11, 12, 9, 8, 10]
+def c17Start : Position := { side := 0, halfmove := 0, ply := 1, board := c17StartBoard, castling := 15, ep := 64, hash := {}, history := [] }
+set_option maxRecDepth 100000 in
+example : genShapeB c17Start = true ∧ (genMoves c17Start).length = 20 := by decide +kernel
 
 end Chess.Props
